@@ -1,0 +1,32 @@
+//go:build verif
+
+// Contracts for the deductive checks in /verif (comment-only). Syntax: /verif/DESIGN.md 2.3.
+// splitcount/splitpart are the assumed contract of strings.Split; pathmatch(p, pattern) is
+//   splitcount(pattern) == splitcount(p) && forall i < splitcount(p): part(pattern,i) == "*" || part(pattern,i) == part(p,i)
+
+package tree
+
+//@ func (Path).Parts
+//@   nopanic[C01,C02,C04]
+//@   ensures[C02,C04] len(result) == splitcount(p, ".") && len(result) >= 1
+//@   ensures[C02,C04] forall i int :: 0 <= i && i < len(result) ==> result[i] == splitpart(p, ".", i)
+
+//@ func (Path).Matches
+//@   nopanic[C01,C02,C04]
+//@   ensures[C02,C04] result <==> pathmatch(p, pattern)
+//@   loop 1
+//@     invariant[C02,C04] -1 <= rangeindex && rangeindex < len(parts)
+//@     invariant[C02,C04] forall j int :: 0 <= j && j <= rangeindex ==> (splitpart(pattern, ".", j) == "*" || splitpart(pattern, ".", j) == splitpart(p, ".", j))
+//@     decreases[C01] len(parts) - rangeindex
+
+//@ func (Path).Last
+//@   nopanic[C01]
+
+//@ func (Path).Parent
+//@   nopanic[C01]
+
+//@ func (Path).Next
+//@   nopanic[C01]
+
+//@ func NewPath
+//@   nopanic[C01]
